@@ -46,6 +46,7 @@ type Config struct {
 	EnvRate       int64 // sat/kw added to the estimator's curve
 	Steps         int
 	StartAboveMax bool
+	InitialUtxos  int
 	StartHeight   int32
 }
 
